@@ -103,6 +103,11 @@ def main():
         tests = re.findall(r"^func (Test\w+)\(", src, re.M)
         tag = re.search(r"^//go:build\s+(\w+)\s*$", src, re.M)
         tagflag = ("-tags %s " % tag.group(1)) if tag else ""
+        readme = ""
+        if os.path.exists(os.path.join(sd, "README.md")):
+            readme = open(os.path.join(sd, "README.md"), errors="replace").read()
+        if re.search(r"go test[^\n]*-race", readme):
+            tagflag += "-race "  # the demonstration is a data race: it only shows under the race detector
         if d is None:
             demo_cmd = "go run %s" % demo
         else:
